@@ -248,8 +248,10 @@ def parseHandle (t : String) : Option (Nat × Nat) :=   -- a<i>.<k>
     | _, _ => none
   | _ => none
 
-/-- finding `host-off-marks-peer-dying-without-exit`: the model says the actor was marked dying
-(`unregister_first_simcall`: "host is off => set_wannadie") but `ActorImpl::exit` never ran for it (no `Obs.kill`) -/
+/-- fixed defect `host-off-marks-peer-dying-without-exit`: the model says the actor was marked dying
+(`unregister_first_simcall`: "host is off => set_wannadie", pre-fix variant `unregisterMarksDying := true` only) but
+`ActorImpl::exit` never ran for it (no `Obs.kill`).  With the fixed model this note is never produced: an actor of a host
+turned off that does not terminate at that date is a plain monitor failure. -/
 def zombieNote (s : St) (a : Nat) : String :=
   if (s.actors a).wannadie && ! (s.actors a).ended && ! s.obs.contains (.kill a) then
     " [zombie: marked dying by unregister_first_simcall while its host was being turned off, ActorImpl::exit never ran]"
